@@ -96,12 +96,29 @@ func (self *containerMetaList) lookAhead() {
 			}
 		}
 		if choice, isChoice := m.(*meta.Choice); isChoice {
+			// a choice or a case whose when is false is not there, with everything in it
+			if visible, err := (CheckWhen{}).check(self.s, choice); err != nil {
+				self.err = err
+				self.main = nil
+				self.choiceCase = nil
+				return
+			} else if !visible {
+				continue
+			}
 			if chosen, err := self.s.Node.Choose(self.s, choice); err != nil {
 				self.err = fmt.Errorf("%T - %w", self.s.Node, err)
 				self.main = nil
 				self.choiceCase = nil
 				return
 			} else if chosen != nil {
+				if visible, err := (CheckWhen{}).check(self.s, chosen); err != nil {
+					self.err = err
+					self.main = nil
+					self.choiceCase = nil
+					return
+				} else if !visible {
+					continue
+				}
 				self.choiceCase = newChoiceCaseIterator(self.s, chosen)
 				if self.choiceCase.err != nil {
 					self.err = self.choiceCase.err
